@@ -13,6 +13,7 @@ import Gsp.Model.Claim
 import Gsp.Model.Verify
 import Gsp.Model.Loader
 import Gsp.Model.Json
+import Gsp.Model.Schema
 /-! Line-protocol driver: one JSON case per line on stdin, one `{"id","out"}` per line on stdout. Core-only. -/
 open Lean Gsp
 
@@ -504,6 +505,16 @@ def opCredView (inp : Json) : Except String Json := do
     if bad.isEmpty && badDates.isEmpty then pure (okJ (Json.str "lossless"))
     else pure (Json.mkObj [("lost", Json.arr ((bad ++ badDates).map Json.str).toArray)])
 
+
+/-! ### JSON Schema -/
+def opSchemaValidate (inp : Json) : Except String Json := do
+  let schema := toJ (← inp.getObjVal? "schema")
+  let data := toJ (← inp.getObjVal? "data")
+  pure (match Schema.validateData schema data with
+    | .error e => errJ e
+    | .ok true => okJ (Json.str "valid")
+    | .ok false => okJ (Json.str "invalid"))
+
 def handle (k : Pos.Consts) (op : String) (inp : Json) : Except String Json :=
   match op with
   | "pre.hash" => opPreHash k inp
@@ -522,6 +533,7 @@ def handle (k : Pos.Consts) (op : String) (inp : Json) : Except String Json :=
   | "verify.status" => opVerifyStatus k inp
   | "verify.http" => opVerifyHttp inp
   | "cred.view" => opCredView inp
+  | "schema.validate" => opSchemaValidate inp
   | "loader.run" => opLoaderRun inp
   | "loader.expected" => opLoaderExpected inp
   | _ => throw s!"unknown op {op}"
